@@ -7,6 +7,7 @@ import Model.Backends
 import Model.SqlSession
 import Model.Audit
 import Model.Serialize
+import Model.MongoMig
 /-!
 # The Python primitives that the translated rule bodies are made of
 
@@ -60,6 +61,10 @@ inductive V where
                                                -- session's view, dirty) and whether a pending row's key is already taken
   | smodel (u : Store.Uid) (p : Store.Pol) (ok : Bool)   -- a `PolicyModel` row object
   | scursor (rows : Store.St)                  -- the rows a query yields
+  | mcoll (docs : List MongoMig.MDoc) (replaced : List (PyVal × MongoMig.MDoc))
+                                               -- a MongoDB collection as a data migration sees it: the documents `find()`
+                                               -- yields, and the `replace_one(_id, doc)` calls made so far
+  | mproc (f : MongoMig.MDoc → Except MongoMig.MErr MongoMig.MDoc)     -- the per-document processor of a migration step
   | pager (ga : Int → Int → Option Store.St)   -- any storage, seen through its `get_all(limit, offset)` (`none`: it raises)
   | alog (audits : List AuditRec) (decisions : List Bool)
                                                -- what the guard writes: the audit records and the decision-log records
@@ -92,6 +97,8 @@ def truth : V → Bool
   | .eworld _ _ _ _ _ => true
   | .alog _ _ => true
   | .pager _ => true
+  | .mcoll _ _ => true
+  | .mproc _ => true
   | .sworld _ _ _ => true
   | .smodel _ _ _ => true
   | .scursor _ => true
@@ -572,6 +579,10 @@ def getattrObjM (a name dflt : M) : M :=
 /-- a list literal of string constants (a class attribute such as `_definition_fields`) -/
 def cStrList (xs : List String) : M := .ok (.seq (xs.map fun s => V.py (.str s.toList)))
 
+/-- the effect constants of `vakt/effects.py` (their values are regenerated from the source: `Generated.lean`) -/
+def cAllowConst : M := .ok (.py (.str Generated.allowConst))
+def cDenyConst : M := .ok (.py (.str Generated.denyConst))
+
 /-- the empty dictionary literal `{}` -/
 def cEmptyDict : M := .ok (.py (.dict []))
 
@@ -1002,6 +1013,26 @@ def raiseSqlM (exc : String) (w : M) : M :=
     | .sworld s c Option.none =>
       .ok (.sworld s c (some (if exc == "PolicyExistsError" then .existsErr else if exc == "ValueError" then .valueError else .rejected)))
     | _ => raiseM
+
+/-! ### the data migrations of the MongoDB storage: `_each_doc` -/
+
+/-- `storage.collection.find()`: the documents, as the cursor yields them -/
+def collFindM (w : M) : M :=
+  bindM w fun w => match w with
+    | .mcoll docs _ => .ok (.seq (docs.map fun d => V.py (.dict d)))
+    | _ => raiseM
+
+/-- `processor(doc)`: the step's conversion of one document - or whatever it raises (`Irreversible`, or anything else) -/
+def procCallM (proc doc : M) : M :=
+  bindM proc fun p => bindM doc fun d => match p, d with
+    | .mproc f, .py (.dict kvs) => (match f kvs with | .ok d' => .ok (.py (.dict d')) | .error _ => raiseM)
+    | _, _ => raiseM
+
+/-- `storage.collection.replace_one({'_id': key}, new_doc)`: one more replacement -/
+def replaceOneM (key doc w : M) (k : V → M) : M :=
+  bindM key fun ky => bindM doc fun d => bindM w fun w => match ky, d, w with
+    | .py kv, .py (.dict kvs), .mcoll docs reps => k (.mcoll docs (reps ++ [(kv, kvs)]))
+    | _, _, _ => raiseM
 
 /-! ### `Policy.from_json`: the decoded properties as a local dictionary -/
 
